@@ -419,6 +419,15 @@ func c19PromiseConc(r *obs.Run, hook bool) {
 	// implementation can return and the harness itself never creates a history that must block
 	plans[0] = append([]c19In{{[]string{"fulfill", "fail"}[rng.Intn(2)], 7}}, plans[0]...)
 	_ = settles
+	// "late settle" histories: every other goroutine starts with a Wait and goroutine 0 settles only after a
+	// short pause, so that several waiters are already parked when the value arrives
+	late := time.Duration(0)
+	if rng.Intn(3) == 0 {
+		late = time.Duration(500+rng.Intn(2500)) * time.Microsecond
+		for g := 1; g < ng; g++ {
+			plans[g] = append([]c19In{{Kind: "wait"}}, plans[g]...)
+		}
+	}
 	r.Crumb(fmt.Sprintf("promise history gomaxprocs=%d hook=%v plans=%v", procs, hook, plans))
 	var wg sync.WaitGroup
 	start := make(chan struct{})
@@ -427,6 +436,9 @@ func c19PromiseConc(r *obs.Run, hook bool) {
 		go func(g int) {
 			defer wg.Done()
 			<-start
+			if g == 0 && late > 0 {
+				time.Sleep(late)
+			}
 			for _, in := range plans[g] {
 				call := atomic.AddInt64(&clock, 1)
 				var out c19Out
@@ -472,6 +484,9 @@ func c19PromiseConc(r *obs.Run, hook bool) {
 		r.Violate("promise-settled-not-once", fmt.Sprintf("%d Fulfill/Fail calls succeeded on one immutable promise", succ), w)
 	}
 	r.Count("promise_histories_checked", 1)
+	if late > 0 {
+		r.Count("promise_late_settle_histories", 1)
+	}
 	r.Count("promise_operations", int64(len(hist)))
 	if hook {
 		_, n := ev.hash()
@@ -510,7 +525,7 @@ func init() {
 		MinDistinct: func(t string) int { return 1200 },
 		Floors: func(string) map[string]int64 {
 			return map[string]int64{"processor_runs": 500, "processor_barrier_runs": 200, "processor_zero_operation_runs": 80, "processor_results": 5000, "map_runs": 300, "map_chunks": 1500,
-				"promise_sequential_histories": 300, "promise_histories_checked": 500, "promise_wait_hook_delays": 100, "promise_operations": 2000}
+				"promise_sequential_histories": 300, "promise_histories_checked": 500, "promise_wait_hook_delays": 100, "promise_operations": 2000, "promise_late_settle_histories": 100}
 		},
 		Assumptions: []string{"Processor operations do not panic; Map is given mappers that do not fail", "promise histories use Fulfill, Fail and Wait only (Recover/Break are outside the statement) and contain at least one settling call",
 			"a blocked-forever goroutine is decided logically by the harness watcher: two identical goroutine dumps one second apart in which every goroutine is parked in a channel/mutex/condition/wait-group operation and none is runnable, sleeping or in a system call (the runtime's own detector is disabled in race builds)"},
